@@ -224,7 +224,7 @@ impl RegexMatcher {
     pub fn match_error(&self, path: &str) -> Option<String> {
         self.regex
             .match_with_param(
-                format!("{path}\0").as_str(),
+                path,
                 0,
                 SearchOptions::SEARCH_OPTION_NONE,
                 None,
